@@ -36,9 +36,12 @@ var fnameCases = map[string][]string{
 		"a-1.0-.jar", "A_1.0.jar", "#-1.0.jar", "?-1.0.jar", "-1.0.JAR", "_-1.0.war", "-_1.0.ear"},
 	"jarnest": {"x-2.0.jar", "-1.0.jar", "_1.0.jar", ".1.0.jar", "lib/-1.0.jar", "lib/.1.0.jar", "@/-1.0.jar", ":-1.0.jar", " -1.0.jar"},
 	"nix":     {nixHash + "-perl-5.38.2", nixHash + "---1.0", nixHash + "-.-1.0", nixHash + "-..-1.0", nixHash + "--1.0", nixHash + "-a-1.0-", nixHash + "-a.b-1.0-out", nixHash + "-x-unstable-2024-01-02", nixHash + "---unstable-2024-01-02"},
-	"brew":    {"rclone", " ", "@", "@types", ":", "a:b", "...", "%2F", "a b", "A", "#", "?", "-", "_"},
+	// kmod: not a file name — the 5 bytes that replace the key `name=` in the .modinfo section of the kernel module fixture
+	// (a module without a name entry must not become a nameless package)
+	"kmod": {"name=", "nome=", "NAME=", "name\x00"},
+	"brew": {"rclone", " ", "@", "@types", ":", "a:b", "...", "%2F", "a b", "A", "#", "?", "-", "_"},
 }
-var fnameKinds = []string{"jar", "jarnest", "nix", "brew"}
+var fnameKinds = []string{"jar", "jarnest", "nix", "brew", "kmod"}
 
 func zipOf(entries map[string][]byte) []byte {
 	var b bytes.Buffer
@@ -72,6 +75,12 @@ func runFname(scratch string, exs map[string]filesystem.Extractor, kind, comp st
 		exName, rel, data = "os/nix", "nix/store/"+comp+"/bin/x", []byte("x")
 	case "brew":
 		exName, rel, data = "os/homebrew", "usr/local/Cellar/"+comp+"/1.0/INSTALL_RECEIPT.json", []byte("{}")
+	case "kmod":
+		src, err := os.ReadFile(filepath.Join(scratch, "os_kernel_module", "valid"))
+		if err != nil || len(comp) != 5 {
+			return "made=0 pk=0 purls=0 issues=fixture-missing bad=- drop=-"
+		}
+		exName, rel, data = "os/kernel/module", "lib/modules/6.1.0/kernel/drivers/x.ko", bytes.Replace(src, []byte("name="), []byte(comp), 1)
 	default:
 		return "bad-op"
 	}
@@ -85,7 +94,7 @@ func runFname(scratch string, exs map[string]filesystem.Extractor, kind, comp st
 				is.add("extract-panic")
 			}
 		}()
-		if kind != "jarnest" && (strings.Contains(comp, "/") || comp == "" || comp == "." || comp == "..") {
+		if kind != "jarnest" && kind != "kmod" && (strings.Contains(comp, "/") || comp == "" || comp == "." || comp == "..") {
 			return
 		}
 		p := filepath.Join(root, filepath.FromSlash(rel))
